@@ -52,6 +52,9 @@ structure Reg (α : Type) where
   /-- the bucket key `buildTree` derives from the parsed pretty path -/
   key : Nat
   handlers : List (Handler α)
+  /-- `Route.pathOrig == ""`: the path handed to `register` was empty (before the `"" → "/"` repair);
+  `addRoute` does not merge `""` with `"/"` -/
+  eo : Bool := false
   deriving Repr
 
 /-- `Route` (router.go), restricted to what dispatch reads. `mount` routes never reach the tree
@@ -63,6 +66,12 @@ structure Route (α : Type) where
   raw : Bytes
   key : Nat
   handlers : List (Handler α)
+  /-- `pathOrig == ""` -/
+  eo : Bool := false
+  /-- ghost: index (in the program) of the registration that created the route -/
+  first : Nat := 0
+  /-- ghost: index of the last registration whose handlers `addRoute` merged into the route -/
+  last : Nat := 0
   deriving Repr
 
 /-- Parameters of the dispatch model. `π` = request path states, `α` = override arguments. -/
@@ -88,6 +97,8 @@ def Reg.matches (E : Env π α) (g : Reg α) (p : π) : Bool := E.M g.raw g.use 
 structure Stacks (α : Type) where
   rev : Nat → List (Route α)
   count : Nat
+  /-- ghost: number of completed `register` calls (the index of the registration being added) -/
+  nreg : Nat := 0
 
 def Stacks.empty : Stacks α := { rev := fun _ => [], count := 0 }
 
@@ -98,27 +109,28 @@ def markSeam : List (Handler α) → List (Handler α)
   | [] => []
   | h :: hs => { h with seam := true } :: hs
 
+/-- the route `addRoute` appends: next global position; ghost registration index -/
+def newRoute (S : Stacks α) (m : Nat) (g : Reg α) : Route α :=
+  { pos := S.count + 1, m := m, use := g.use, raw := g.raw, key := g.key, handlers := g.handlers, eo := g.eo,
+    first := S.nreg, last := S.nreg }
+
 /-- router.go `addRoute` for one method: merge into the previous route of that method's stack when
-`Path` and `use` coincide ("prevent identically route registration"), else take the next global
+`Path`, `pathOrig == ""` and `use` coincide ("prevent identically route registration"), else take the next global
 position. `merge = false` is the variant without the merge (only used to state `merge_transparent`). -/
 def addRoute (merge : Bool) (S : Stacks α) (m : Nat) (g : Reg α) : Stacks α :=
   match S.rev m with
   | last :: rest =>
-    if merge && last.raw == g.raw && last.use == g.use then
-      { S with rev := fun i => if i = m then { last with handlers := last.handlers ++ markSeam g.handlers } :: rest
-                                else S.rev i }
+    if merge && last.raw == g.raw && last.eo == g.eo && last.use == g.use then
+      let merged : Route α := { last with handlers := last.handlers ++ markSeam g.handlers, last := S.nreg }
+      { S with rev := fun i => if i = m then merged :: rest else S.rev i }
     else
-      { rev := fun i => if i = m then { pos := S.count + 1, m := m, use := g.use, raw := g.raw, key := g.key,
-                                         handlers := g.handlers } :: last :: rest else S.rev i,
-        count := S.count + 1 }
+      { S with rev := fun i => if i = m then newRoute S m g :: last :: rest else S.rev i, count := S.count + 1 }
   | [] =>
-    { rev := fun i => if i = m then [{ pos := S.count + 1, m := m, use := g.use, raw := g.raw, key := g.key,
-                                       handlers := g.handlers }] else S.rev i,
-      count := S.count + 1 }
+    { S with rev := fun i => if i = m then [newRoute S m g] else S.rev i, count := S.count + 1 }
 
-/-- router.go `register`: one `addRoute` per method of the call. -/
+/-- router.go `register`: one `addRoute` per method of the call (the ghost counter `nreg` numbers the calls). -/
 def addReg (merge : Bool) (S : Stacks α) (g : Reg α) : Stacks α :=
-  g.methods.foldl (fun S m => addRoute merge S m g) S
+  { g.methods.foldl (fun S m => addRoute merge S m g) S with nreg := S.nreg + 1 }
 
 def build (merge : Bool) (regs : List (Reg α)) : Stacks α :=
   regs.foldl (addReg merge) Stacks.empty
@@ -163,11 +175,12 @@ def Stacks.tree (S : Stacks α) (m : Nat) : List (Nat × List (Route α)) := bui
 
 /-- Known-finding regions hit by the instrumented run. -/
 inductive Known where
-  /-- K1: a handler effectively overrides the method; `indexRoute` is carried numerically into the
-  other method's tree -/
+  /-- K1: a handler effectively overrides the method and the cursor (`indexRoute`) it continues with in
+  the other method's tree is not behind exactly the routes registered up to the current one -/
   | k1
-  /-- K2: `ctx.Next` continues with handlers merged from a later identical registration although
-  the route no longer matches the (overridden) method/path -/
+  /-- K2: `addRoute`'s merge: `ctx.Next` continues with handlers merged from a later identical
+  registration although the route no longer matches the (overridden) method/path; or, after a method
+  override, the new method's stack holds a route that merged a later registration into an earlier position -/
   | k2
   deriving Repr, DecidableEq
 
@@ -210,8 +223,50 @@ position in the bucket of the new path (`sort.Search(pos > route.pos) - 1`). -/
 def resync (E : Env π α) (S : Stacks α) (m : Nat) (p : π) (pos : Nat) : Nat :=
   (candidates E S m p).countP (fun x => x.pos ≤ pos)
 
+/-- ctx.go `syncIndexRouteMethod`, first loop: the number of `use` routes among `tree[0..indexRoute]` -/
+def useRank (l : List (Route α)) (cur : Nat) : Nat := (l.take cur).countP (·.use)
+
+/-- ctx.go `syncIndexRouteMethod`, second loop: `index + 1` where `index` is that of the `n`-th `use`
+route of the new tree (of the last one when there are fewer; `-1` when `n = 0` or there is none) -/
+def afterNthUse : List (Route α) → Nat → Nat
+  | _, 0 => 0
+  | [], _ + 1 => 0
+  | x :: xs, n + 1 =>
+    if x.use then (if afterNthUse xs n = 0 then 1 else afterNthUse xs n + 1)
+    else (if afterNthUse xs (n + 1) = 0 then 0 else afterNthUse xs (n + 1) + 1)
+
+/-- ctx.go `Method(override)` after the repair (`syncIndexRouteMethod`): inside a `Use` route the
+cursor is moved behind the new method's copy of the same middleware (the `Use` routes are in every
+method's tree, in the same order); inside any other route the numeric cursor is carried over. -/
+def methodCursor (E : Env π α) (S : Stacks α) (r : Route α) (m m' : Nat) (p : π) (cur : Nat) : Nat :=
+  if r.use then afterNthUse (candidates E S m' p) (useRank (candidates E S m p) cur) else cur
+
+/-- ctx.go `Path(override)` → `syncIndexRoute` after the second repair: the cursor is derived by position
+in the tree of the route's *own* method (positions of different method stacks are not comparable) and,
+when the method was overridden before, carried over to the current method's tree like `Method(override)` does -/
+def pathCursor (E : Env π α) (S : Stacks α) (r : Route α) (m : Nat) (p : π) : Nat :=
+  if m == r.m then resync E S m p r.pos else methodCursor E S r r.m m p (resync E S r.m p r.pos)
+
+/-- instrumentation: the cursor the specification asks for after the current route `r`, in the tree of
+method `m` for path `p`: behind every candidate stemming from a registration up to `r`'s last one -/
+def idealCur (E : Env π α) (S : Stacks α) (r : Route α) (m : Nat) (p : π) : Nat :=
+  (candidates E S m p).countP (fun x => x.first ≤ r.last)
+
+/-- instrumentation: the cursor leaves other candidates to scan than `idealCur` does -/
+def misaligned (E : Env π α) (S : Stacks α) (r : Route α) (m : Nat) (p : π) (cur : Nat) : Bool :=
+  min cur (candidates E S m p).length != idealCur E S r m p
+
+/-- instrumentation: a route of method `m`'s stack was created by a registration up to number `k` and
+also holds (merged) handlers of a later one -/
+def straddles (S : Stacks α) (m k : Nat) : Bool :=
+  (S.stack m).any fun x => x.first ≤ k && k < x.last
+
 /-- ctx.go `Next` within one route: run `Handlers[indexHandler…]` while they call `Next`.
-`cur` is `indexRoute + 1`. -/
+`cur` is `indexRoute + 1`. With `chk` the run aborts where a recorded finding's situation is reached:
+K2 at a merge seam when the route no longer matches; K1 when, after an effective method override (or a
+path override while the method differs from the route's), the cursor is not the one the specification
+asks for; K2 when the new method's stack holds a route that merged a later registration into an
+earlier position. -/
 def runChain (E : Env π α) (S : Stacks α) (chk : Bool) (r : Route α) :
     List (Handler α) → Nat → π → Nat → Except Known (List Nat × ChainEnd π)
   | [], m, p, cur => .ok ([], .fall m p cur)
@@ -225,10 +280,14 @@ def runChain (E : Env π α) (S : Stacks α) (chk : Bool) (r : Route α) :
       | .setPath o =>
         match E.setp p o with
         | none => (runChain E S chk r hs m p cur).map fun x => (h.hid :: x.1, x.2)
-        | some p' => (runChain E S chk r hs m p' (resync E S m p' r.pos)).map fun x => (h.hid :: x.1, x.2)
+        | some p' =>
+          if chk && m != r.m && misaligned E S r m p' (pathCursor E S r m p') then .error .k1
+          else (runChain E S chk r hs m p' (pathCursor E S r m p')).map fun x => (h.hid :: x.1, x.2)
       | .setMethod m' =>
-        if chk && m' != m then .error .k1
-        else (runChain E S chk r hs m' p cur).map fun x => (h.hid :: x.1, x.2)
+        if m' == m then (runChain E S chk r hs m p cur).map fun x => (h.hid :: x.1, x.2)
+        else if chk && misaligned E S r m' p (methodCursor E S r m m' p cur) then .error .k1
+        else if chk && straddles S m' r.last then .error .k2
+        else (runChain E S chk r hs m' p (methodCursor E S r m m' p cur)).map fun x => (h.hid :: x.1, x.2)
 
 /-- first index `j ≥ cur` with `f l[j]` -/
 def findFrom (f : Route α → Bool) : List (Route α) → Nat → Option (Nat × Route α)
